@@ -20,15 +20,26 @@ import (
 )
 
 // one complete use of the library on its own objects; the result is a digest string
-func c19work(text string, key signKey, penv map[string]string, nilEnv bool) string {
+// c19envSource: one map from which many library environments are built (each call site reads it; nobody may write it)
+var c19envSource = map[string]string{"FOO": "vfoo", "BAR": "b"}
+
+const c19envSourceWant = "map[BAR:b FOO:vfoo]"
+
+// env modes: 0 the harness's own environment, 1 none (the library supplies one), 2 the library's environment type,
+// built from the shared source map
+func c19work(text string, key signKey, penv map[string]string, envMode int) string {
 	p, err := pipeline.Parse(strings.NewReader(text))
 	if err != nil && !warning.Is(err) {
 		return "parse-error"
 	}
 	parseWarning := fmt.Sprint(err) // part of the result: warnings are data handed to the caller too
-	if nilEnv {
+	if envMode == 1 {
 		// no caller environment: the library supplies its own, which must be private to this call
 		if err := p.Interpolate(nil, false); err != nil {
+			return "interpolate-error: " + err.Error()
+		}
+	} else if envMode == 2 {
+		if err := p.Interpolate(pipeline.VerifEnvFromMap(true, c19envSource), false); err != nil {
 			return "interpolate-error: " + err.Error()
 		}
 	} else {
@@ -97,11 +108,11 @@ func init() {
 			}
 			seq := make([]string, G)
 			for i := range texts {
-				seq[i] = c19work(texts[i], keys[i%len(keys)], penvs[i], i%2 == 1)
+				seq[i] = c19work(texts[i], keys[i%len(keys)], penvs[i], i%3)
 			}
 			// no hidden state: the same input gives the same result again, after the others have run
 			for i := range texts {
-				if again := c19work(texts[i], keys[i%len(keys)], penvs[i], i%2 == 1); again != seq[i] {
+				if again := c19work(texts[i], keys[i%len(keys)], penvs[i], i%3); again != seq[i] {
 					oracleFail("C19", "hidden-state", sx.A(texts[i]), fmt.Sprintf("the same input processed again after other pipelines gives a different result:\nfirst : %q\nsecond: %q", seq[i], again))
 				}
 			}
@@ -116,7 +127,7 @@ func init() {
 							con[i] = fmt.Sprint("panic: ", x)
 						}
 					}()
-					con[i] = c19work(texts[i], keys[i%len(keys)], penvs[i], i%2 == 1)
+					con[i] = c19work(texts[i], keys[i%len(keys)], penvs[i], i%3)
 				}(i)
 			}
 			wg.Wait()
@@ -124,6 +135,10 @@ func init() {
 				if seq[i] != con[i] {
 					oracleFail("C19", "concurrent-differs", sx.A(texts[i]), fmt.Sprintf("sequential result %q, concurrent result %q", seq[i], con[i]))
 				}
+			}
+			if got := fmt.Sprint(c19envSource); got != c19envSourceWant {
+				oracleFail("C19", "hidden-state", sx.A("env-source-map"), fmt.Sprintf("the map from which the interpolation environments were built was written to: %s, was %s", got, c19envSourceWant))
+				c19envSource = map[string]string{"FOO": "vfoo", "BAR": "b"}
 			}
 			stat("C19", "rounds-distinct-objects")
 
